@@ -1117,7 +1117,7 @@ func main() {
 	// A whiteout or an opaque marker on "a" must not touch "ab" or "a.b"; any implementation that
 	// compares paths as strings rather than component-wise differs from the overlay model here.
 	{
-		pu := []string{"a", "a/x", "ab", "ab/x", "a.b", "a.wh.b", "hw", ".w"} // "a.wh.b": the marker prefix inside a name; "hw", ".w": names made of the marker's own characters
+		pu := []string{"a", "a/x", "ab", "ab/x", "a.b", "a.wh.b", "hw", ".w", ".WH.a"} // "a.wh.b": the marker prefix inside a name; "hw", ".w": names made of the marker's own characters
 		var po []imgkit.Entry
 		for _, p := range pu {
 			po = append(po, imgkit.File(p, "1"), imgkit.Entry{Name: p, Kind: "dir", Mode: 0o1750}, imgkit.Whiteout(p), imgkit.Opaque(p))
@@ -1185,5 +1185,5 @@ func main() {
 	}
 	os.RemoveAll(base)
 	r.Assume("imgkit.Model.Apply (~60 lines) is the OCI image-spec change-set application: whiteouts act on lower layers only, then the layer's entries are added")
-	r.Finish(fmt.Sprintf("universe %v; entry kinds: file(2 contents/modes), dir, whiteout, opaque marker per path + 4 symlinks (%d options); layers = all well-formed sets of <=%d entries (%d); all 1- and 2-layer images, every entry order per layer (plain names), canonical order with './' and '/' name styles; for images where an upper layer touches a lower one: 5 history arrangements incl. empty layers at every position and a short history, a real layer with an entry-less tar stream at every position, missing config, requirer none / empty path list / each path (the library's path requirer), also combined with histories that begin or end with empty entries; deep-pruning family (file 4 levels down x requirers); prefix-sibling family (names a, a/x, ab, ab/x, a.b, a.wh.b, hw, .w; lower layer <=2 (thorough 3) entries x upper layer 1 (thorough <=2) entry, + a third layer on top); squashed on-disk unpack AND a FromTarball load of the saved tarball for all pairs of single-entry layers, with a requirer that requires only a symlink (3 link depths x 4 target places x 2-5 target spellings x link in the same / a later layer: the target must reach the disk), all one-layer images of <=2 entries (and every single-entry layer with the unpacker's limits set to 0 and to -1, both documented as 'unset'); thorough adds all 3-layer images (<=%d,<=%d,1). Each view: Stat/Open+Read (plus: a second handle opened while the first is part-way through, ReadAt at every offset, Seek from the end) on every universe path + 2 absent paths, ReadDir of every directory, WalkDir. non-trivial = an upper-layer entry overlaps a lower-layer entry", universe, len(opts), maxEntries, len(sets), maxEntries, maxEntries), complete)
+	r.Finish(fmt.Sprintf("universe %v; entry kinds: file(2 contents/modes), dir, whiteout, opaque marker per path + 4 symlinks (%d options); layers = all well-formed sets of <=%d entries (%d); all 1- and 2-layer images, every entry order per layer (plain names), canonical order with './' and '/' name styles; for images where an upper layer touches a lower one: 5 history arrangements incl. empty layers at every position and a short history, a real layer with an entry-less tar stream at every position, missing config, requirer none / empty path list / each path (the library's path requirer), also combined with histories that begin or end with empty entries; deep-pruning family (file 4 levels down x requirers); prefix-sibling family (names a, a/x, ab, ab/x, a.b, a.wh.b, hw, .w, .WH.a (an ordinary name: the marker prefix is lower-case); lower layer <=2 (thorough 3) entries x upper layer 1 (thorough <=2) entry, + a third layer on top); squashed on-disk unpack AND a FromTarball load of the saved tarball for all pairs of single-entry layers, with a requirer that requires only a symlink (3 link depths x 4 target places x 2-5 target spellings x link in the same / a later layer: the target must reach the disk), all one-layer images of <=2 entries (and every single-entry layer with the unpacker's limits set to 0 and to -1, both documented as 'unset'); thorough adds all 3-layer images (<=%d,<=%d,1). Each view: Stat/Open+Read (plus: a second handle opened while the first is part-way through, ReadAt at every offset, Seek from the end) on every universe path + 2 absent paths, ReadDir of every directory, WalkDir. non-trivial = an upper-layer entry overlaps a lower-layer entry", universe, len(opts), maxEntries, len(sets), maxEntries, maxEntries), complete)
 }
